@@ -143,12 +143,14 @@ impl Driver {
   fn enter(&mut self) -> Option<String> {
     self.n_calls += 1;
     if self.fault_hit {
+      // calls after the failed one are recorded and answered normally (the property forbids
+      // further writes, not further reads); a loop that never stops is cut off
       self.calls_after_fault += 1;
       self.runaway_guard += 1;
-      if self.runaway_guard > 64 {
+      if self.runaway_guard > 256 {
         panic!("loop keeps calling the driver after a failed call");
       }
-      return Some("harness: call after the injected fault".to_string());
+      return None;
     }
     if self.end_returned {
       self.calls_after_end += 1;
